@@ -61,13 +61,27 @@ void explore(Options const& o, std::vector<Shim*> const& shims, std::vector<Shim
   std::vector<i64> Sg = thorough ? S_set(4,2) : S_set(3,1);          // pairs under caller-side guards
   rec.note("alphabet", "pairs S(" + std::string(thorough ? "6,4" : "4,2") + ")^2 |S|=" + std::to_string(S.size())
            + "; constant/self shapes over S(" + (thorough ? "9,6" : "7,4") + ") |S|=" + std::to_string(Sbig.size())
-           + "; guarded shapes over S(" + (thorough ? "4,2" : "3,1") + ")^2 |S|=" + std::to_string(Sg.size()));
+           + "; guarded shapes over S(" + (thorough ? "4,2" : "3,1") + ")^2 |S|=" + std::to_string(Sg.size())
+           + "; plus, for every operand / constant, the partner that puts the exact result at max(), lowest(), +-NaN pattern, INT64_MIN and 0 (+-2); x += x and x -= x use the same object on both sides");
   // pre-register classes (deterministic ids)
   int cls[2][6][3];
   const char* shapes6[6] = { "vv", "loop", "vk", "kv", "self", "guarded" };
   for( int sub = 0; sub < 2; ++sub ) for( int k = 0; k < 6; ++k ) for( int ov = 0; ov < 3; ++ov )
     cls[sub][k][ov] = cls_for(rec, sub ? B_SUB : B_ADD, shapes6[k], ov);
 
+  // operands directed at the boundaries of the oracle: for an operand b the partner a with a (+/-) b == T + d for every
+  // target T in {max(), lowest(), the two NaN patterns, INT64_MIN, 0} and |d| <= 2
+  const i128 TARGETS[6] = { FX_MAX, FX_LOWEST, static_cast<i128>(FX_NAN), -static_cast<i128>(FX_NAN), static_cast<i128>(INT64_MIN), 0 };
+  auto directed = [&](int op, i64 fixed_operand, bool fixed_is_rhs, std::vector<i64>& out) {
+    for( i128 T : TARGETS ) for( int d = -2; d <= 2; ++d )
+      {
+      i128 a;
+      if( !is_sub(op) ) a = T + d - fixed_operand;                 // a + b == T + d   (either position)
+      else if( fixed_is_rhs ) a = T + d + fixed_operand;          // a - b == T + d
+      else a = static_cast<i128>(fixed_operand) - T - d;          // b - a == T + d  (a is the subtrahend)
+      if( a >= FX_LOWEST && a <= FX_MAX ) out.push_back(static_cast<i64>(a));
+      }
+    };
   for( size_t ci = 0; ci < shims.size(); ++ci )
     {
     Shim* s = shims[ci];
@@ -90,6 +104,21 @@ void explore(Options const& o, std::vector<Shim*> const& shims, std::vector<Shim
           if( !v.ok ) lv.hit(cls[is_sub(op)][1][vkind(v)], order, [=]{ return mk(s, "loop", op, a, b, g1, v, "row", { to_s(op), to_s(a), to_s(b) }); });
           i64 g2 = s->fm_bin(op, a, b);
           Verdict v2 = oracle(op, a, b, g2);
+          if( !v2.ok ) lv.hit(cls[is_sub(op)][0][vkind(v2)], order, [=]{ return mk(s, "vv", op, a, b, g2, v2, "vv", { to_s(op), to_s(a), to_s(b) }); });
+          n += 2;
+          }
+        // directed partners of this a (a is the left operand, the enumerated partner the right one)
+        std::vector<i64> part;
+        for( i128 T : TARGETS ) for( int d = -2; d <= 2; ++d ) { i128 b = is_sub(op) ? static_cast<i128>(a) - T - d : T + d - a; if( b >= FX_LOWEST && b <= FX_MAX ) part.push_back(static_cast<i64>(b)); }
+        std::vector<i64> pout(part.size());
+        s->fm_bin_row(op, a, part.data(), part.size(), pout.data());
+        for( size_t ib = 0; ib < part.size(); ++ib )
+          {
+          i64 b = part[ib];
+          u64 order = (static_cast<u64>(ci) << 56) | (static_cast<u64>(oi) << 52) | (1ull << 50) | (ia * 64 + ib);
+          Verdict v = oracle(op, a, b, pout[ib]); br.see(v);
+          if( !v.ok ) { i64 g1 = pout[ib]; lv.hit(cls[is_sub(op)][1][vkind(v)], order, [=]{ return mk(s, "loop", op, a, b, g1, v, "row", { to_s(op), to_s(a), to_s(b) }); }); }
+          i64 g2 = s->fm_bin(op, a, b); Verdict v2 = oracle(op, a, b, g2);
           if( !v2.ok ) lv.hit(cls[is_sub(op)][0][vkind(v2)], order, [=]{ return mk(s, "vv", op, a, b, g2, v2, "vv", { to_s(op), to_s(a), to_s(b) }); });
           n += 2;
           }
@@ -124,6 +153,18 @@ void explore(Options const& o, std::vector<Shim*> const& shims, std::vector<Shim
           u64 order = (static_cast<u64>(ci) << 56) | (static_cast<u64>(si) << 40) | i;
           check(Sbig[i], 0, out[i], "loop", order);
           check(Sbig[i], 0, s->fm_shape_call(static_cast<int>(si), Sbig[i], 0), "call", order);
+          }
+        if( info.kind == SH_VK || info.kind == SH_KV )
+          {   // the run-time operand that brings the exact result to every boundary of the oracle for THIS constant
+          std::vector<i64> dir; directed(info.op, info.k, info.kind == SH_VK, dir);
+          std::vector<i64> dout(dir.size());
+          s->fm_shape_batch(static_cast<int>(si), dir.data(), dir.data(), dir.size(), dout.data());
+          for( size_t i = 0; i < dir.size(); ++i )
+            {
+            u64 order = (static_cast<u64>(ci) << 56) | (static_cast<u64>(si) << 40) | (1ull << 39) | i;
+            check(dir[i], 0, dout[i], "loop", order);
+            check(dir[i], 0, s->fm_shape_call(static_cast<int>(si), dir[i], 0), "call", order);
+            }
           }
         }
       else
